@@ -317,6 +317,25 @@ func resFinish(s *Summary) {
 			}
 		}
 	}
+	// several VALUES of one controller type (a shelf per tenant): every mount is served by the actions - and guarded by the
+	// Uses() middleware - of the value it was given, on one router and on the next one
+	r1, r2 := rux.New(), newRouter(cachingOpts(4)...)
+	r1.Resource("/pub/", &Shelf{tag: "pub"})
+	r1.Resource("/adm/", &Shelf{tag: "adm"})
+	r2.Resource("/", &Shelf{tag: "third"})
+	for _, pr := range []struct {
+		r               *rux.Router
+		m, path, expect string
+	}{{r1, "GET", "/pub/shelf", "mw:-pub;pub:Index"}, {r1, "GET", "/adm/shelf", "mw:-adm;adm:Index"}, {r1, "GET", "/adm/shelf/7", "adm:Show"}, {r1, "DELETE", "/pub/shelf/7", "pub:Delete"},
+		{r1, "DELETE", "/adm/shelf/7", "adm:Delete"}, {r2, "GET", "/shelf", "mw:-third;third:Index"}, {r2, "GET", "/shelf/7", "third:Show"}, {r2, "GET", "/shelf/7", "third:Show"}} {
+		w := httptest.NewRecorder()
+		pr.r.ServeHTTP(w, &http.Request{Method: pr.m, URL: &url.URL{Path: pr.path}, Header: http.Header{}, Proto: "HTTP/1.1"})
+		s.Compared++
+		if w.Body.String() != pr.expect {
+			s.mismatch(map[string]any{"kind": "resource", "aspect": "probe", "what": fmt.Sprintf(
+				"three values of one controller type mounted as /pub/shelf, /adm/shelf and (next router) /shelf: %s %s answered %q, expected %q", pr.m, pr.path, w.Body.String(), pr.expect)}, nil)
+		}
+	}
 	// a non-pointer or non-struct controller is rejected
 	cases := []struct {
 		name string
@@ -338,4 +357,14 @@ func resFinish(s *Summary) {
 			s.mismatch(map[string]any{"kind": "resource", "aspect": "reject", "what": fmt.Sprintf("Resource with a %s controller: panicked=%v, expected %v", tc.name, pan != nil, tc.bad)}, nil)
 		}
 	}
+}
+
+// Shelf: a controller with state; every value serves its own mount
+type Shelf struct{ tag string }
+
+func (b *Shelf) Index(c *rux.Context)  { c.WriteString(b.tag + ":Index") }
+func (b *Shelf) Show(c *rux.Context)   { c.WriteString(b.tag + ":Show") }
+func (b *Shelf) Delete(c *rux.Context) { c.WriteString(b.tag + ":Delete") }
+func (b *Shelf) Uses() map[string][]rux.HandlerFunc {
+	return map[string][]rux.HandlerFunc{"Index": {resMw("-" + b.tag)}}
 }
